@@ -23,6 +23,23 @@ type vf38Op struct {
 	Gap int    `json:"gap"` // nominal pause before the operation, ms
 	S   int64  `json:"s"`   // measured start, microseconds since the scenario's origin
 	E   int64  `json:"e"`   // measured end
+	// Slow: the writer takes its time between the system calls of os.WriteFile (open with O_TRUNC,
+	// pause of a third of additionalWait, write) - "allow the writer to complete its job"
+	Slow bool `json:"slow"`
+}
+
+// vf38SlowWriteFile is os.WriteFile with a pause between the truncation and the data.
+func vf38SlowWriteFile(name string, data []byte, pause time.Duration) error {
+	f, err := os.OpenFile(name, os.O_WRONLY|os.O_CREATE|os.O_TRUNC, 0o644)
+	if err != nil {
+		return err
+	}
+	time.Sleep(pause)
+	_, err = f.Write(data)
+	if err1 := f.Close(); err1 != nil && err == nil {
+		err = err1
+	}
+	return err
 }
 
 type vf38Sig struct {
@@ -107,7 +124,11 @@ func vf38Exec(work string, windowMs int, r *vf38Run) {
 		op.S = us()
 		switch op.Op {
 		case "Write", "Create":
-			err = os.WriteFile(target, content, 0o644)
+			if op.Slow {
+				err = vf38SlowWriteFile(target, content, additionalWait/3)
+			} else {
+				err = os.WriteFile(target, content, 0o644)
+			}
 		case "Remove":
 			err = os.Remove(target)
 		case "Swap":
